@@ -2,6 +2,7 @@ package clientgen
 
 import (
 	"fmt"
+	"strconv"
 	"strings"
 
 	"google.golang.org/protobuf/compiler/protogen"
@@ -211,7 +212,7 @@ func (g *Generator) generateOneofMarshalVariants(gf *protogen.GeneratedFile, inf
 		gf.P("case *", wrapperType, ":")
 
 		// Add discriminator value
-		gf.P(`raw["`, info.Discriminator, `"], _ = json.Marshal("`, variant.DiscriminatorVal, `")`)
+		gf.P(`raw[`, strconv.Quote(info.Discriminator), `], _ = json.Marshal(`, strconv.Quote(variant.DiscriminatorVal), `)`)
 
 		if info.Flatten && variant.IsMessage {
 			g.generateFlattenedMarshal(gf, variant)
@@ -281,7 +282,7 @@ func (g *Generator) generateOneofUnmarshalJSON(gf *protogen.GeneratedFile, ctx *
 
 	gf.P("// Remove discriminator fields before protojson unmarshal")
 	for _, info := range ctx.Oneofs {
-		gf.P(`delete(raw, "`, info.Discriminator, `")`)
+		gf.P(`delete(raw, `, strconv.Quote(info.Discriminator), `)`)
 	}
 	gf.P()
 
@@ -304,17 +305,17 @@ func (g *Generator) generateOneofUnmarshalVariants(
 	info *annotations.OneofDiscriminatorInfo,
 ) {
 	gf.P("// Read discriminator for oneof ", info.Oneof.Desc.Name())
-	gf.P(`if discRaw, ok := raw["`, info.Discriminator, `"]; ok {`)
+	gf.P(`if discRaw, ok := raw[`, strconv.Quote(info.Discriminator), `]; ok {`)
 	gf.P("var disc string")
 	gf.P("if err := json.Unmarshal(discRaw, &disc); err != nil {")
-	gf.P(`return fmt.Errorf("invalid discriminator %q: %w", "`, info.Discriminator, `", err)`)
+	gf.P(`return fmt.Errorf("invalid discriminator %q: %w", `, strconv.Quote(info.Discriminator), `, err)`)
 	gf.P("}")
 	gf.P()
 
 	gf.P("switch disc {")
 
 	for _, variant := range info.Variants {
-		gf.P(`case "`, variant.DiscriminatorVal, `":`)
+		gf.P(`case `, strconv.Quote(variant.DiscriminatorVal), `:`)
 
 		if info.Flatten && variant.IsMessage {
 			g.generateFlattenedUnmarshal(gf, variant, info)
